@@ -23,5 +23,18 @@ def _nontrivial(c):
     return machgen.stats(c)["kinds"] >= 2
 
 
+# KEEP_DEPENDENCIES keeps a flushed batch's items: a batch flushed by a sibling's synchronous item.value() stays in the
+# scheduler's set and must still be skipped when the next batch is selected
+_KEPT_FLUSHED = {
+    "roots": [[
+        {"op": "yield", "x": "x1", "s": {"tuple": [
+            {"new": {"task": [{"op": "yield", "x": "a1", "s": {"new": {"item": [0, 1, {"set": 1}]}}}, {"op": "return", "e": {"var": "a1"}}]}},
+            {"new": {"task": [{"op": "let", "h": "h1", "f": {"item": [0, 2, {"set": 2}]}}, {"op": "sync", "x": "b1", "h": "h1"},
+                              {"op": "return", "e": {"var": "b1"}}]}},
+            {"new": {"task": [{"op": "yield", "x": "c1", "s": {"new": {"item": [1, 3, {"set": 3}]}}}, {"op": "return", "e": {"var": "c1"}}]}}]}},
+        {"op": "return", "e": {"var": "x1"}}]],
+    "params": {"kinds": {}, "keep": True},
+}
+
 mach.install(globals(), "C05", ("EvBefore", "EvFlush", "EvItemDone", "EvAfter", "EvIllegal"), ("C05:",), PROFILES,
-             n_quick=300, n_thorough=5000, nontrivial=_nontrivial, level="proof")
+             n_quick=300, n_thorough=5000, nontrivial=_nontrivial, level="proof", corpus=[_KEPT_FLUSHED])
